@@ -161,6 +161,7 @@ def plan(prop, tier):
         bs = [B("A", 3 if q else 4), B("C", 3, sample=1500 if q else None), B("D", 2 if q else 3), B("B", 3, sample=2000 if q else None),
               B("Y", 4, sample=400 if q else 6000),           # four calendar years: schedules with three and four entries
               B("F", 3, ods=True, sample=400 if q else None),  # through the spreadsheet: acquisitions with a crypto fee (artificial fee disposals take part in matching)
+              B("B", 4, runs=runs_windows, configs=cfg_one_method, sample=600 if q else 6000),   # under a from-date: fees of earlier transfers have taken their part of the lots
               *([B("A", 4, sample=2500)] if q else []),       # (quick: a sample of the depth that thorough takes in full)
               B("A", 12, sim=150 if q else 3000, depth=12), B("Y", 10, sim=100 if q else 2000, depth=10)]
     elif prop == "C02":
@@ -218,7 +219,10 @@ def plan(prop, tier):
               # an account drawn below zero one unit at a time, the unit below / at the tolerance: every history to 5 (thorough 6) transactions
               B("O", 5 if q else 6, mode="covered", runs=runs_neg, configs=cfg_one_method, units="dust"),
               B("O", 4 if q else 5, mode="covered", runs=runs_neg, configs=cfg_one_method, units="coarse"),
-              B("M", 3, mode="any", runs=runs_neg_windows, configs=cfg_one_method, units="coarse", sample=500 if q else 8000)]     # an overdraft before the from-date still counts
+              B("M", 3, mode="any", runs=runs_neg_windows, configs=cfg_one_method, units="coarse", sample=500 if q else 8000),     # an overdraft before the from-date still counts
+              # a non-UTC offset, every transaction within hours of midnight: a debit belongs to the day written in its own timestamp, so a to-date on
+              # that day includes it (an overdraft on the to-date itself is an overdraft)
+              B("Z", 3, mode="covered", runs=runs_neg_windows, configs=cfg_one_method, units="coarse", sample=600 if q else 10000)]
     elif prop == "C09":
         mc = [("A", 3, "valid", "single")] if q else [("A", 3, "valid", "all")]
         bs = [B("A", 3 if q else 4, runs=runs_todates, configs=cfg_methods, sample=2500 if q else 60000),
